@@ -32,10 +32,12 @@ d=json.load(open(HERE+'/known_findings.json'))
 for f in d['findings']:
     if f['status']=='fixed':
         print(f"revert-{f['id']} {f['property']} revert {f['commit']}")
-        if f['id'] in ('F-D3a','F-D7'):  # also visible through the simulation flow
+        if f['id'] in ('F-D3a','F-D7') and f['property'] != 'C15':  # also visible through the simulation flow
             print(f"revert-{f['id']} C15 revert {f['commit']}")
 import os
 for s in sorted(os.listdir(HERE+'/seeded')):
+    if os.path.exists(f'{HERE}/seeded/{s}/superseded.txt'):
+        continue
     m=json.load(open(f'{HERE}/seeded/{s}/meta.json'))
     print(f"seeded-{s} {m['property']} seeded {s}")
 PY
